@@ -287,15 +287,19 @@ class PolicyBlocks(Device):
                 if 1 <= n <= 255 and n not in seen:
                     seen.add(n)
                     opts.append(("ask", n))
+            if not cur.get("zero_asked"):
+                opts.append(("ask", 0))      # a request for no bytes at all (once per header): answered by an empty chunk
             if self.allow_early:
                 opts.append(("stop",))
             # the host ran out of data although the prefix announced more: stop asking
-            if cur["chunks"][-1][1] == b"":
+            if cur["chunks"][-1][1] == b"" and cur["chunks"][-1][0] != 0:
                 opts = [("stop",)]
             o = opts[self.choose(len(opts), "more")]
             if self.ctx is not None:
                 self.ctx.state(("blk", len(self.items), len(cur["data"]), o))
             if o[0] == "ask":
+                if o[1] == 0:
+                    cur["zero_asked"] = True
                 self.requested = o[1]
                 return bytes([0x80, self.cmd, op, o[1]])
             cur["stopped_early"] = True
